@@ -83,9 +83,11 @@ def run(facts, R):
         for p_, b_ in sorted(facts.bodies.items()):
             if p_.split("::")[0].lstrip("<") != module or p_ in (callfn,) + tuple(fwds) or "::tests::" in p_:
                 continue
-            if not any(callee_matches(t_["callee"], wr_name) for _, t_ in b_.calls()):
-                continue
             s_ = Sym(b_)
+            own_write = any(t_["callee"]["name"] in ("lock", "try_lock", "blocking_lock") and "Mutex" in t_["callee"]["path"] and render(s_.op(t_["args"][0])).endswith(".writer")
+                            for _, t_ in b_.calls()) and any(t_["callee"]["name"].startswith("write_message") for _, t_ in b_.calls())
+            if not (own_write or any(callee_matches(t_["callee"], wr_name) for _, t_ in b_.calls())):
+                continue
             if _registrations(b_, s_, module):
                 derived_calls.append(p_)
                 R.note("derived call function of %s (judged like %s): %s" % (module, callfn.rsplit("::", 2)[-2 if "{closure" in callfn else -1], p_))
@@ -114,6 +116,31 @@ def run(facts, R):
             regs = _registrations(b, sym, module)
             writes = [(i, t) for i, t in b.calls() if callee_matches(t["callee"], module + "::" + callfn.split("::")[1] + "::write_request")]
             R.check(len(regs) == 1, "id-source", b.path, "one registration", "expected exactly one pending registration, found %d" % len(regs), b.span)
+            if not writes and fn in derived_calls and len(regs) == 1:
+                # a burst writer: the function queues its frames and writes them itself under the writer lock.  The per-call obligations
+                # read: every id given to a MessageBuilder here is the key registered in the same pass; a frame is queued for the burst
+                # only behind the Ok edge of its registration; the registration site dominates every write of the burst
+                ri, rt, key = regs[0]
+                own = [(i, t) for i, t in b.calls() if t["callee"]["name"].startswith("write_message")]
+                R.floor("register-before-write", len(own), 1, "frame writes in " + b.path)
+                ids_ = [sym.op(t["args"][1]) for i, t in b.calls() if callee_matches(t["callee"], "message::MessageBuilder::id") and len(t["args"]) > 1]
+                R.check(bool(ids_) and all(x_ == key for x_ in ids_) and is_call(key, "next_request_id"), "id-source", b.path, "header id == registered key",
+                        "a message built in %s does not carry the id its waiter is registered under (ids %s, key %s)" % (b.path, [render(x_)[:40] for x_ in ids_], render(key)[:40]), rt.get("span"),
+                        "every MessageBuilder::id(..) is the registered key")
+                for i, t in b.calls():
+                    pl_ = op_place(t["args"][1]) if len(t["args"]) == 2 else None
+                    if t["callee"]["name"] == "push" and "Vec" in t["callee"]["path"] and pl_ is not None and not pl_["p"] and "message::Message" == b.local_ty(pl_["l"]):
+                        fs_ = facts_at(b, sym, facts, i)
+                        okq = any(str(f["val"]) == "Ok" and any(y[0] == "call" and len(y) > 3 and y[3] == ri for y in walk(f["expr"])) for f in fs_)
+                        R.check(okq, "register-before-write", b.path, "a frame is queued only behind its registration",
+                                "a request frame is queued for the burst on a path where its waiter was not registered (guards: %s)" % texts(fs_)[:5], t.get("span"), "push behind register(..) == Ok")
+                for wi, wt in own:
+                    # (the registration loop may run zero times - an empty batch - so it does not dominate the burst; what matters is that it is
+                    # over when the burst starts: together with the push rule every written frame has its waiter)
+                    late = ri in b.reachable(starts=tuple(b.succs(wi)))
+                    R.check(not late, "register-before-write", b.path, "registration precedes the burst",
+                            "a waiter can be registered after frames of the burst were written: a fast response would be dropped as unrecognised", wt.get("span"), "no registration reachable from write@bb%d" % wi)
+                continue
             R.floor("register-before-write", len(writes), 1, "write_request calls in " + b.path)
             if len(regs) != 1:
                 continue
